@@ -22,6 +22,7 @@ type UpRec struct {
 	ConnID int
 	Host   string
 	UpID   uint64
+	Att    int
 	Frame  []byte
 	Parsed *XFrame
 	H      *H1Msg
@@ -260,8 +261,8 @@ func (u *XUpstream) OnData(c *sim.Conn, b []byte) {
 			u.S.Logf("upstream %s c%d got request with unknown token %q", u.Host, c.ID, tok)
 			continue
 		}
-		up := &UpRec{At: u.S.Now(), ConnID: c.ID, Host: u.Host, UpID: f.ID, Frame: fr, Parsed: f}
 		att := len(r.Upstream)
+		up := &UpRec{At: u.S.Now(), ConnID: c.ID, Host: u.Host, UpID: f.ID, Att: att, Frame: fr, Parsed: f}
 		if len(r.Script) > 0 {
 			if att < len(r.Script) {
 				up.Act = r.Script[att]
